@@ -51,36 +51,74 @@ Qed.
 (* a refused request: the reply, no store call, nothing changed *)
 Lemma ostep_refused sm roots f x ob o sid code : op_sid o = Some sid ->
   dispatch_as_c04 sm roots sid ob = inr code ->
-  ostep_c04 sm roots f x (ob, o) = Some (mkState (st x) (ca x) 0, [(sid, Ctrl code [])]).
+  ostep_c04 sm roots f x (QReq ob o) = Some (mkState (st x) (ca x) 0, [(sid, Ctrl code [])]).
 Proof. intros S D. unfold ostep_c04. rewrite S, D. reflexivity. Qed.
 
 Lemma ostep_needs_root sm roots f x ob o sid : op_sid o = Some sid ->
   has_obo_c04 ob = true -> is_root_c04 roots sid = false ->
-  ostep_c04 sm roots f x (ob, o) = Some (mkState (st x) (ca x) 0, [(sid, Ctrl 403 [])]).
+  ostep_c04 sm roots f x (QReq ob o) = Some (mkState (st x) (ca x) 0, [(sid, Ctrl 403 [])]).
 Proof. intros S H R. apply ostep_refused; [exact S|]. apply dispatch_needs_root; assumption. Qed.
 
-(* a request that is executed is one [step] of the product model in which the session stands
-   for the acting user *)
-Lemma ostep_some sm roots f x ob o r : ostep_c04 sm roots f x (ob, o) = Some r ->
-  (op_sid o = None /\ ob = OboNone /\ r = step_i sm f x o) \/
-  (exists sid code, op_sid o = Some sid /\ dispatch_as_c04 sm roots sid ob = inr code /\
-                    r = (mkState (st x) (ca x) 0, [(sid, Ctrl code [])])) \/
-  (exists sid u, op_sid o = Some sid /\ dispatch_as_c04 sm roots sid ob = inl u /\
-                 r = step_i (sm_as_c04 sm sid u) f x o).
+(* {sub get=...}: the subscription step, then frames only - store and cache are those of the
+   subscription step *)
+Lemma sub_get_shape sm' f x sid u want bkg gd gl :
+  let r := sub_get_c04 sm' f x sid u want bkg gd gl in
+  let s1 := step_i sm' f x (OSub sid want bkg) in
+  st (fst r) = st (fst s1) /\ ca (fst r) = ca (fst s1) /\ exists o', snd r = snd s1 ++ o'.
 Proof.
-  unfold ostep_c04. destruct (op_sid o) as [sid|] eqn:S.
-  - destruct (dispatch_as_c04 sm roots sid ob) as [u|code] eqn:D.
-    + destruct (is_root_c04 roots sid && negb (root_req_ok_c04 x sid u ob o)); [discriminate|].
-      intros H. inv H. right. right. exists sid, u. auto.
+  cbn zeta. unfold sub_get_c04. destruct (step_i sm' f x (OSub sid want bkg)) as [x1 o1]. cbn [fst snd].
+  destruct (sub_accepted_c04 sid o1); [|repeat split; exists []; rewrite app_nil_r; reflexivity].
+  destruct (ca x1) as [c|] eqn:CA; [|cbn [fst snd]; repeat split; try congruence; exists []; rewrite app_nil_r; reflexivity].
+  cbn [fst snd st ca].
+  assert (forall h1, h_st h1 = st x1 -> h_ca h1 = c ->
+          h_st (match gl with
+                | Some (a, b, l) => get_del norm_ranges_i f (h_st h1) (h_ca h1) (h_n h1) sid u a b l
+                | None => mkH (h_st h1) (h_ca h1) (h_n h1) []
+                end) = st x1 /\
+          h_ca (match gl with
+                | Some (a, b, l) => get_del norm_ranges_i f (h_st h1) (h_ca h1) (h_n h1) sid u a b l
+                | None => mkH (h_st h1) (h_ca h1) (h_n h1) []
+                end) = c) as K.
+  { intros h1 E1 E2. destruct gl as [[[a b] l]|]; cbn [h_st h_ca]; [|auto].
+    destruct (get_del_same0 norm_ranges_i f (h_st h1) (h_ca h1) (h_n h1) sid u a b l) as [-> ->]. auto. }
+  destruct gd as [[[a b] l]|].
+  - destruct (get_data_same0 f (st x1) c (ncalls x1) sid u a b l) as [E1 E2].
+    destruct (K _ E1 E2) as [K1 K2]. rewrite K1, K2. repeat split. eexists. reflexivity.
+  - destruct (K (mkH (st x1) c (ncalls x1) []) eq_refl eq_refl) as [K1 K2]. cbn [h_st h_ca h_n] in *. rewrite K1, K2.
+    repeat split. eexists. reflexivity.
+Qed.
+
+(* a request that is executed is one [step] of the product model in which the session stands
+   for the acting user (for {sub get=...}: that step, then frames only) *)
+Lemma ostep_some sm roots f x q r : ostep_c04 sm roots f x q = Some r ->
+  (op_sid (q_op q) = None /\ q_obo q = OboNone /\ r = step_i sm f x (q_op q)) \/
+  (exists sid code, op_sid (q_op q) = Some sid /\ dispatch_as_c04 sm roots sid (q_obo q) = inr code /\
+                    r = (mkState (st x) (ca x) 0, [(sid, Ctrl code [])])) \/
+  (exists sid u, op_sid (q_op q) = Some sid /\ dispatch_as_c04 sm roots sid (q_obo q) = inl u /\
+     let s1 := step_i (sm_as_c04 sm sid u) f x (q_op q) in
+     st (fst r) = st (fst s1) /\ ca (fst r) = ca (fst s1) /\
+     (r = s1 \/ exists w b, q_op q = OSub sid w b)).
+Proof.
+  destruct q as [ob o|ob sid want bkg gd gl]; cbn [ostep_c04 q_op q_obo].
+  - destruct (op_sid o) as [sid|] eqn:S.
+    + destruct (dispatch_as_c04 sm roots sid ob) as [u|code] eqn:D.
+      * destruct (is_root_c04 roots sid && negb (root_req_ok_c04 x sid u ob o)); [discriminate|].
+        intros H. inv H. right. right. exists sid, u. cbn zeta. cbn [fst]. repeat split; auto.
+      * intros H. inv H. right. left. exists sid, code. auto.
+    + destruct ob; cbn [has_obo_c04]; try discriminate. intros H. inv H. left. auto.
+  - cbn [op_sid]. destruct (dispatch_as_c04 sm roots sid ob) as [u|code] eqn:D.
+    + destruct (is_root_c04 roots sid && negb (has_obo_c04 ob)); [discriminate|].
+      intros H. inv H. right. right. exists sid, u. split; [reflexivity|]. split; [exact D|]. cbn zeta.
+      destruct (sub_get_shape (sm_as_c04 sm sid u) f x sid u want bkg gd gl) as [A [B _]]. cbn zeta in A, B.
+      split; [exact A|]. split; [exact B|]. right. eauto.
     + intros H. inv H. right. left. exists sid, code. auto.
-  - destruct ob; cbn [has_obo_c04]; try discriminate. intros H. inv H. left. auto.
 Qed.
 
 (* an ordinary session without extra.obo, a root session inside the modelled fragment *)
 Lemma ostep_acting sm roots f x ob o sid u : op_sid o = Some sid ->
   dispatch_as_c04 sm roots sid ob = inl u ->
   (is_root_c04 roots sid = true -> root_req_ok_c04 x sid u ob o = true) ->
-  ostep_c04 sm roots f x (ob, o) = Some (step_i (sm_as_c04 sm sid u) f x o).
+  ostep_c04 sm roots f x (QReq ob o) = Some (step_i (sm_as_c04 sm sid u) f x o).
 Proof.
   intros S D R. unfold ostep_c04. rewrite S, D.
   destruct (is_root_c04 roots sid); cbn [andb]; [rewrite (R eq_refl)|]; reflexivity.
@@ -99,44 +137,57 @@ Section Sim.
 Variable sm : sessmap.
 Variable roots : list N.
 
+Lemma event_sub sm' x sid w b ou : event_of sm' x (OSub sid w b) ou = HNone.
+Proof. unfold event_of. destruct (ca x); reflexivity. Qed.
+
+Lemma inv_hist_same x y : st x = st y -> ca x = ca y -> inv_hist y -> inv_hist x.
+Proof. destruct x as [s1 c1 n1], y as [s2 c2 n2]. cbn [st ca]. intros -> ->. exact (fun H => H). Qed.
+
 Lemma ostep_f_sim x fq x1 o1 : inv_hist x -> oreq_ok_c04 sm roots fq ->
   ostep_f_c04 sm roots x fq = Some (x1, o1) ->
   heq (abs (st x1)) (hs_step (abs (st x)) (oevent_c04 sm roots x (snd fq) o1)) /\ inv_hist x1.
 Proof.
-  intros I [OK FO] E. destruct fq as [f [ob o]]. cbn [fst snd] in *.
+  intros I [OK FO] E. destruct fq as [f q]. cbn [fst snd] in *.
   unfold ostep_f_c04 in E. cbn [fst snd] in E.
-  destruct (ostep_c04 sm roots f x (ob, o)) as [[y oy]|] eqn:ES; [|discriminate].
-  destruct (ostep_some sm roots f x ob o (y, oy) ES) as [[S [-> R]]|[[sid [code [S [D R]]]]|[sid [u [S [D R]]]]]].
+  destruct (ostep_c04 sm roots f x q) as [[y oy]|] eqn:ES; [|discriminate].
+  (* the state after a crash keeps the store only *)
+  assert (forall ev, heq (abs (st y)) (hs_step (abs (st x)) ev) /\ inv_hist y ->
+          ev = oevent_c04 sm roots x q oy ->
+          heq (abs (st x1)) (hs_step (abs (st x)) (oevent_c04 sm roots x q o1)) /\ inv_hist x1) as FIN.
+  { intros ev [HS IY] ->. destruct f; inv E; try (split; assumption). cbn [st]. split; [exact HS|].
+    destruct IY as [[A [B C]] [I0 _]]. split; [|split; [exact I0|exact Logic.I]].
+    split; [exact A|]. split; [exact B|]. cbn [ca st]. destruct (ca y) as [c|]; [destruct C as [? [? ?]]; lia|exact C]. }
+  destruct (ostep_some sm roots f x q (y, oy) ES) as [[S [OB R]]|[[sid [code [S [D R]]]]|[sid [u [S [D R]]]]]].
   - (* a request that belongs to no session: unload, restart *)
-    assert (oevent_c04 sm roots x (OboNone, o) o1 = HNone) as EV.
-    { unfold oevent_c04, acting_c04. cbn [fst snd]. rewrite S. reflexivity. }
-    rewrite EV.
-    assert (op_ok sm o) as OK' by (unfold op_ok; rewrite S; exact Logic.I).
-    pose proof (step_f_sim del_ranges_i norm_ranges_i sm dr_exact_i x (f, o) I OK' FO) as [HS I1].
-    unfold step_f in HS, I1. cbn [fst snd] in HS, I1. fold (step_i sm f x o) in HS, I1. rewrite <- R in HS, I1.
-    rewrite (event_no_session sm x o _ S) in HS.
-    destruct f; inv E; cbn [fst snd] in *; split; assumption.
+    assert (oevent_c04 sm roots x q oy = HNone) as EV.
+    { unfold oevent_c04, acting_c04. rewrite S. reflexivity. }
+    assert (op_ok sm (q_op q)) as OK' by (unfold op_ok; rewrite S; exact Logic.I).
+    pose proof (step_sim del_ranges_i norm_ranges_i sm dr_exact_i f x (q_op q) I OK' FO) as [HS I1].
+    fold (step_i sm f x (q_op q)) in HS, I1. rewrite <- R in HS, I1. cbn [fst snd] in HS, I1.
+    rewrite (event_no_session sm x (q_op q) _ S) in HS.
+    apply (FIN HNone); [|symmetry; exact EV]. split; [exact HS|]. split; [|exact I1].
+    pose proof (step_f_inv_num del_ranges_i norm_ranges_i sm x (NoFault, q_op q) (proj1 I)) as IN.
+    unfold step_f in IN. cbn [fst snd] in IN. fold (step_i sm NoFault x (q_op q)) in IN.
+    pose proof (step_inv_num del_ranges_i norm_ranges_i sm f x (q_op q) (proj1 I)) as IN'.
+    fold (step_i sm f x (q_op q)) in IN'. rewrite <- R in IN'. exact IN'.
   - (* refused by Session.dispatch *)
-    inv R.
-    assert (oevent_c04 sm roots x (ob, o) o1 = HNone) as EV.
-    { unfold oevent_c04, acting_c04. cbn [fst snd]. rewrite S, D. reflexivity. }
-    rewrite EV. cbn [hs_step]. destruct x as [s cx n0]. cbn [st ca ncalls] in *.
-    destruct f; inv E; cbn [st]; (split; [apply heq_refl|]).
-    + exact I.
-    + exact I.
-    + destruct I as [IN [I0 _]]. split; [|split; [exact I0|exact Logic.I]].
-      destruct IN as [A [B C]]. split; [exact A|]. split; [exact B|]. cbn [ca st] in *.
-      destruct cx as [c|]; [|exact C]. lia.
+    assert (oevent_c04 sm roots x q oy = HNone) as EV.
+    { unfold oevent_c04, acting_c04. rewrite S, D. reflexivity. }
+    apply (FIN HNone); [|symmetry; exact EV]. inv R. cbn [hs_step st]. split; [apply heq_refl|].
+    apply (inv_hist_same _ x); [reflexivity|reflexivity|exact I].
   - (* executed as user u *)
-    assert (oevent_c04 sm roots x (ob, o) o1 = event_of (sm_as_c04 sm sid u) x o o1) as EV.
-    { unfold oevent_c04, acting_c04. cbn [fst snd]. rewrite S, D. reflexivity. }
-    rewrite EV.
-    assert (op_ok (sm_as_c04 sm sid u) o) as OK'.
-    { unfold op_ok. rewrite S. rewrite sess_uid_as. unfold acting_c04 in OK. cbn [fst snd] in OK. rewrite S, D in OK. exact OK. }
-    pose proof (step_f_sim del_ranges_i norm_ranges_i (sm_as_c04 sm sid u) dr_exact_i x (f, o) I OK' FO) as [HS I1].
-    unfold step_f in HS, I1. cbn [fst snd] in HS, I1. fold (step_i (sm_as_c04 sm sid u) f x o) in HS, I1.
-    rewrite <- R in HS, I1.
-    destruct f; inv E; cbn [fst snd] in *; split; assumption.
+    cbn zeta in R. destruct R as [RS [RC RR]]. cbn [fst] in RS, RC.
+    assert (op_ok (sm_as_c04 sm sid u) (q_op q)) as OK'.
+    { unfold op_ok. rewrite S. rewrite sess_uid_as. unfold acting_c04 in OK. rewrite S, D in OK. exact OK. }
+    pose proof (step_sim del_ranges_i norm_ranges_i (sm_as_c04 sm sid u) dr_exact_i f x (q_op q) I OK' FO) as [HS I1].
+    pose proof (step_inv_num del_ranges_i norm_ranges_i (sm_as_c04 sm sid u) f x (q_op q) (proj1 I)) as IN'.
+    fold (step_i (sm_as_c04 sm sid u) f x (q_op q)) in HS, I1, IN'.
+    destruct (step_i (sm_as_c04 sm sid u) f x (q_op q)) as [z oz] eqn:EZ. cbn [fst snd] in *.
+    assert (oevent_c04 sm roots x q oy = event_of (sm_as_c04 sm sid u) x (q_op q) oz) as EV.
+    { unfold oevent_c04, acting_c04. rewrite S, D. destruct RR as [RR|[w [b EQ]]]; [inv RR; reflexivity|].
+      rewrite EQ. rewrite !event_sub. reflexivity. }
+    apply (FIN (event_of (sm_as_c04 sm sid u) x (q_op q) oz)); [|symmetry; exact EV]. rewrite RS. split; [exact HS|].
+    apply (inv_hist_same _ z); [exact RS|exact RC|]. split; assumption.
 Qed.
 
 (* what the stored rows show after a history with obo requests is what the specification computes
@@ -158,9 +209,9 @@ Qed.
 (* with ANY faults: message numbers stay unique, log rows stay well formed *)
 Definition log_minv (x : state) : Prop := minv dellog_wf log_inv x.
 
-Lemma step_f_log_minv sm' x fo : log_minv x -> log_minv (fst (step_f del_ranges_i norm_ranges_i sm' x fo)).
+Lemma step_log_minv sm' : forall f x o, log_minv x -> log_minv (fst (step_i sm' f x o)).
 Proof.
-  apply (step_f_minv del_ranges_i norm_ranges_i sm' dellog_wf log_inv).
+  apply (step_minv del_ranges_i norm_ranges_i sm' dellog_wf log_inv).
   - intros s H. split; [exact H|]. destruct H as [_ H]. exact H.
   - intros s c [H _]. exact H.
   - intros f s c n sid u w b [H HC]. split; [eapply dellog_wf_hsame; [apply sub_reply_h4|exact H]|].
@@ -186,27 +237,31 @@ Qed.
 Lemma log_minv_wf x : log_minv x -> dellog_wf (st x).
 Proof. unfold log_minv, minv. destruct (ca x); [intros [A _]; exact A|auto]. Qed.
 
+Lemma inv_num_same x y : st x = st y -> ca x = ca y -> inv_num y -> inv_num x.
+Proof. destruct x as [s1 c1 n1], y as [s2 c2 n2]. cbn [st ca]. intros -> ->. exact (fun H => H). Qed.
+Lemma log_minv_same x y : st x = st y -> ca x = ca y -> log_minv y -> log_minv x.
+Proof. destruct x as [s1 c1 n1], y as [s2 c2 n2]. cbn [st ca]. intros -> ->. exact (fun H => H). Qed.
+
 Lemma ostep_f_rows x fq x1 o1 : inv_num x -> log_minv x ->
   ostep_f_c04 sm roots x fq = Some (x1, o1) -> inv_num x1 /\ log_minv x1.
 Proof.
-  intros IN W E. destruct fq as [f [ob o]]. unfold ostep_f_c04 in E. cbn [fst snd] in E.
-  destruct (ostep_c04 sm roots f x (ob, o)) as [[y oy]|] eqn:ES; [|discriminate].
-  assert (forall sm', (y, oy) = step_i sm' f x o -> inv_num x1 /\ log_minv x1) as K.
-  { intros sm' R.
-    pose proof (step_f_inv_num del_ranges_i norm_ranges_i sm' x (f, o) IN) as I1.
-    pose proof (step_f_log_minv sm' x (f, o) W) as W1.
-    unfold step_f in I1, W1. cbn [fst snd] in I1, W1.
-    fold (step_i sm' f x o) in I1, W1. rewrite <- R in I1, W1.
-    destruct f; inv E; cbn [fst snd st ca] in *; split; assumption. }
-  destruct (ostep_some sm roots f x ob o (y, oy) ES) as [[S [-> R]]|[[sid [code [S [D R]]]]|[sid [u [S [D R]]]]]].
-  - exact (K sm R).
-  - inv R. destruct x as [s cx n0]. cbn [st ca ncalls] in *.
-    destruct f; inv E; cbn [st ca]; try (split; [exact IN|exact W]).
-    split.
-    + destruct IN as [A [B C]]. split; [exact A|]. split; [exact B|]. cbn [ca st] in *.
-      destruct cx as [c|]; [|exact C]. lia.
-    + apply log_minv_wf in W. exact W.
-  - exact (K (sm_as_c04 sm sid u) R).
+  intros IN W E. destruct fq as [f q]. unfold ostep_f_c04 in E. cbn [fst snd] in E.
+  destruct (ostep_c04 sm roots f x q) as [[y oy]|] eqn:ES; [|discriminate].
+  assert (inv_num y /\ log_minv y -> inv_num x1 /\ log_minv x1) as FIN.
+  { intros [IY WY]. destruct f; inv E; try (split; assumption). split.
+    - destruct IY as [A [B C]]. split; [exact A|]. split; [exact B|]. cbn [ca st].
+      destruct (ca y) as [c|]; [destruct C as [? [? ?]]; lia|exact C].
+    - apply log_minv_wf in WY. exact WY. }
+  assert (forall sm', inv_num (fst (step_i sm' f x (q_op q))) /\ log_minv (fst (step_i sm' f x (q_op q)))) as K.
+  { intros sm'. split.
+    - apply (step_inv_num del_ranges_i norm_ranges_i sm' f x (q_op q) IN).
+    - apply step_log_minv. exact W. }
+  apply FIN.
+  destruct (ostep_some sm roots f x q (y, oy) ES) as [[S [OB R]]|[[sid [code [S [D R]]]]|[sid [u [S [D R]]]]]].
+  - destruct (K sm) as [K1 K2]. rewrite <- R in K1, K2. split; assumption.
+  - inv R. split; [apply (inv_num_same _ x); auto|apply (log_minv_same _ x); auto].
+  - cbn zeta in R. destruct R as [RS [RC _]]. cbn [fst] in RS, RC. destruct (K (sm_as_c04 sm sid u)) as [K1 K2].
+    split; [apply (inv_num_same _ _ RS RC K1)|apply (log_minv_same _ _ RS RC K2)].
 Qed.
 
 Lemma orun_rows h : forall x xf outs, inv_num x -> log_minv x ->
@@ -258,7 +313,7 @@ Proof. destruct q; reflexivity. Qed.
    whoever owns the session and whoever the session is attached as *)
 Lemma ostep_query sm roots f s c n0 sid ob u q : attached c sid = true ->
   dispatch_as_c04 sm roots sid ob = inl u ->
-  ostep_c04 sm roots f (mkState s (Some c) n0) (ob, op_of_query_c04 sid q) =
+  ostep_c04 sm roots f (mkState s (Some c) n0) (QReq ob (op_of_query_c04 sid q)) =
   Some (let h := handle_query_c04 f s c sid u q in (mkState (h_st h) (Some (h_ca h)) (h_n h), h_out h)).
 Proof.
   intros AT D.
@@ -272,7 +327,7 @@ Qed.
 Lemma ostep_query_detached sm roots f s cx n0 sid ob u q :
   match cx with Some c => attached c sid = false | None => True end ->
   dispatch_as_c04 sm roots sid ob = inl u ->
-  ostep_c04 sm roots f (mkState s cx n0) (ob, op_of_query_c04 sid q) =
+  ostep_c04 sm roots f (mkState s cx n0) (QReq ob (op_of_query_c04 sid q)) =
   Some (mkState s cx 0, [(sid, Ctrl (match q with QDelMsg _ _ => 409 | _ => 403 end) [])]).
 Proof.
   intros AT D.
@@ -325,8 +380,8 @@ Lemma obo_same_answer sm roots f s c n0 sid1 ob1 sid2 ob2 u q :
   attached c sid1 = true -> attached c sid2 = true ->
   dispatch_as_c04 sm roots sid1 ob1 = inl u -> dispatch_as_c04 sm roots sid2 ob2 = inl u ->
   exists x' o1 o2,
-    ostep_c04 sm roots f (mkState s (Some c) n0) (ob1, op_of_query_c04 sid1 q) = Some (x', o1) /\
-    ostep_c04 sm roots f (mkState s (Some c) n0) (ob2, op_of_query_c04 sid2 q) = Some (x', o2) /\
+    ostep_c04 sm roots f (mkState s (Some c) n0) (QReq ob1 (op_of_query_c04 sid1 q)) = Some (x', o1) /\
+    ostep_c04 sm roots f (mkState s (Some c) n0) (QReq ob2 (op_of_query_c04 sid2 q)) = Some (x', o2) /\
     map snd o1 = map snd o2 /\ Forall (fun e => fst e = sid1) o1 /\ Forall (fun e => fst e = sid2) o2.
 Proof.
   intros A1 A2 D1 D2.
@@ -342,6 +397,53 @@ Proof.
   split; [rewrite K|]; unfold retag; apply Forall_forall; intros e He; apply in_map_iff in He;
     destruct He as [e0 [<- _]]; reflexivity.
 Qed.
+
+(* ------------------------------------------------------------------ *)
+(* 3b. {sub get="data del"}: the subscription, then the same two handlers for the same user *)
+
+Lemma ostep_sub_get sm roots f x ob sid u want bkg gd gl :
+  dispatch_as_c04 sm roots sid ob = inl u ->
+  (is_root_c04 roots sid = true -> has_obo_c04 ob = true) ->
+  ostep_c04 sm roots f x (QSubGet ob sid want bkg gd gl) =
+  Some (sub_get_c04 (sm_as_c04 sm sid u) f x sid u want bkg gd gl).
+Proof.
+  intros D R. cbn [ostep_c04]. rewrite D. destruct (is_root_c04 roots sid); cbn [andb]; [rewrite (R eq_refl)|]; reflexivity.
+Qed.
+
+Lemma get_data_nofault_n s c n n' sid u a b l :
+  h_out (get_data NoFault s c n sid u a b l) = h_out (get_data NoFault s c n' sid u a b l).
+Proof. unfold get_data, call. cbn [fails negb]. destruct (is_reader (user_mode c u)); [|reflexivity].
+  destruct (ad_msg_get_all s u a b l); reflexivity. Qed.
+Lemma get_del_nofault_n s c n n' sid u a b l :
+  h_out (get_del norm_ranges_i NoFault s c n sid u a b l) = h_out (get_del norm_ranges_i NoFault s c n' sid u a b l).
+Proof. unfold get_del, call. cbn [fails negb]. destruct (is_reader (user_mode c u)); [|reflexivity].
+  destruct (ad_msg_get_deleted s u a b l); reflexivity. Qed.
+
+(* without store faults, {sub get="data del"} answers what {sub} followed by {get data} and
+   {get del} from the same session (for the same acting user) answer: the statements about
+   {get data} / {get del} carry over to the frames that follow the subscription reply *)
+Lemma sub_get_as_requests sm' x sid want bkg a b l a' b' l' x1 o1 c :
+  step_i sm' NoFault x (OSub sid want bkg) = (x1, o1) -> sub_accepted_c04 sid o1 = true ->
+  ca x1 = Some c -> attached c sid = true ->
+  let r := sub_get_c04 sm' NoFault x sid (sess_uid sm' sid) want bkg (Some (a, b, l)) (Some (a', b', l')) in
+  snd r = o1 ++ snd (step_i sm' NoFault x1 (OGetData sid a b l)) ++ snd (step_i sm' NoFault x1 (OGetDel sid a' b' l')) /\
+  st (fst r) = st x1 /\ ca (fst r) = ca x1.
+Proof.
+  intros E A CA AT. cbn zeta. unfold sub_get_c04. rewrite E, A, CA. cbn [fst snd st ca].
+  destruct (get_data_same0 NoFault (st x1) c (ncalls x1) sid (sess_uid sm' sid) a b l) as [E1 E2]. rewrite E1, E2.
+  destruct (get_del_same0 norm_ranges_i NoFault (st x1) c
+              (h_n (get_data NoFault (st x1) c (ncalls x1) sid (sess_uid sm' sid) a b l)) sid (sess_uid sm' sid) a' b' l') as [E3 E4].
+  rewrite E3, E4. split; [|split; reflexivity].
+  destruct x1 as [s1 cx1 n1]. cbn [st ca ncalls] in *. subst cx1.
+  unfold step_i, step. cbn [st ca]. rewrite AT. cbn [negb snd].
+  rewrite (get_data_nofault_n s1 c n1 0), (get_del_nofault_n s1 c _ 0). reflexivity.
+Qed.
+
+(* the subscription refused (or the session already attached): nothing follows the reply *)
+Lemma sub_get_refused sm' f x sid u want bkg gd gl :
+  sub_accepted_c04 sid (snd (step_i sm' f x (OSub sid want bkg))) = false ->
+  sub_get_c04 sm' f x sid u want bkg gd gl = step_i sm' f x (OSub sid want bkg).
+Proof. intros A. unfold sub_get_c04. destruct (step_i sm' f x (OSub sid want bkg)) as [x1 o1]. cbn [snd] in A. rewrite A. reflexivity. Qed.
 
 (* ------------------------------------------------------------------ *)
 (* 4. {get data} and {get del} after any history with obo requests       *)
@@ -374,7 +476,7 @@ Qed.
 Lemma obo_get_data_history s0 h x c sid ob u since before limit :
   hist_init s0 -> oreach_c04 s0 h = Some x -> ca x = Some c -> attached c sid = true ->
   dispatch_as_c04 sm roots sid ob = inl u -> is_reader (user_mode c u) = true ->
-  exists x' o, ostep_c04 sm roots NoFault x (ob, OGetData sid since before limit) = Some (x', o) /\
+  exists x' o, ostep_c04 sm roots NoFault x (QReq ob (OGetData sid since before limit)) = Some (x', o) /\
   st x' = st x /\
   let fr := data_of o in
   let lim := Z.to_nat (eff_limit max_msg_results limit) in
@@ -398,7 +500,7 @@ Lemma obo_get_del_history s0 h x c sid ob u since before limit :
   hist_init s0 -> oreach_c04 s0 h = Some x -> ca x = Some c -> attached c sid = true ->
   dispatch_as_c04 sm roots sid ob = inl u -> is_reader (user_mode c u) = true ->
   (length (filter (del_sel u since before) (dellog (st x))) <= Z.to_nat (eff_limit max_results limit))%nat ->
-  exists x' o, ostep_c04 sm roots NoFault x (ob, OGetDel sid since before limit) = Some (x', o) /\
+  exists x' o, ostep_c04 sm roots NoFault x (QReq ob (OGetDel sid since before limit)) = Some (x', o) /\
   st x' = st x /\
   ((o = [(sid, Ctrl 204 [(P_what, 3)])] /\ forall y, logged_sel (st x) u since before y = false) \/
    (exists maxid rs, o = [(sid, MetaDel maxid rs)] /\
@@ -428,9 +530,9 @@ Qed.
 (* no R for the ACTING user: nothing is shown, whatever the session's own user may read *)
 Lemma obo_query_needs_read f s c n0 sid ob u since before limit : attached c sid = true ->
   dispatch_as_c04 sm roots sid ob = inl u -> is_reader (user_mode c u) = false ->
-  ostep_c04 sm roots f (mkState s (Some c) n0) (ob, OGetData sid since before limit) =
+  ostep_c04 sm roots f (mkState s (Some c) n0) (QReq ob (OGetData sid since before limit)) =
     Some (mkState s (Some c) 0, [(sid, Ctrl 204 [(P_what, 1)])]) /\
-  ostep_c04 sm roots f (mkState s (Some c) n0) (ob, OGetDel sid since before limit) =
+  ostep_c04 sm roots f (mkState s (Some c) n0) (QReq ob (OGetDel sid since before limit)) =
     Some (mkState s (Some c) 0, [(sid, Ctrl 204 [(P_what, 3)])]).
 Proof.
   intros AT D RD. split.
@@ -450,14 +552,14 @@ End After.
    HIS effective mode: soft -> hidden from him only, hard (asked and D in his mode) -> everyone *)
 Lemma obo_del_event sm roots s c n0 sid ob u req hard ou : attached c sid = true ->
   dispatch_as_c04 sm roots sid ob = inl u ->
-  oevent_c04 sm roots (mkState s (Some c) n0) (ob, ODelMsg sid req hard) ou =
+  oevent_c04 sm roots (mkState s (Some c) n0) (QReq ob (ODelMsg sid req hard)) ou =
   match head_frame ou with
   | Some (Ctrl code [(_, _)]) =>
     if code =? 200 then HDel u (hard && is_deleter (user_mode c u)) (req_ids (c_lastid c) req) else HNone
   | _ => HNone
   end.
 Proof.
-  intros AT D. unfold oevent_c04, acting_c04. cbn [fst snd op_sid]. rewrite D.
+  intros AT D. unfold oevent_c04, acting_c04. cbn [q_op q_obo op_sid]. rewrite D.
   unfold event_of. cbn [ca]. rewrite sess_uid_as.
   reflexivity.
 Qed.
@@ -474,7 +576,7 @@ Proof.
 Qed.
 
 Lemma ostep_plain sm roots f x o sid : op_sid o = Some sid -> is_root_c04 roots sid = false ->
-  ostep_c04 sm roots f x (OboNone, o) = Some (step_i sm f x o).
+  ostep_c04 sm roots f x (QReq OboNone o) = Some (step_i sm f x o).
 Proof.
   intros S R.
   rewrite (ostep_acting sm roots f x OboNone o sid (sess_uid sm sid) S eq_refl) by (rewrite R; discriminate).
@@ -482,11 +584,11 @@ Proof.
 Qed.
 
 Lemma orun_plain sm h : forall x,
-  orun_c04 sm [] x (map (fun fo => (fst fo, (OboNone, snd fo))) h) = Some (run_i sm x h).
+  orun_c04 sm [] x (map (fun fo => (fst fo, QReq OboNone (snd fo))) h) = Some (run_i sm x h).
 Proof.
   induction h as [|[f o] h IH]; intros x; cbn [map orun_c04 fst snd]; [reflexivity|].
   unfold run_i. cbn [run]. fold (run_i sm).
-  assert (ostep_c04 sm [] f x (OboNone, o) = Some (step_i sm f x o)) as E.
+  assert (ostep_c04 sm [] f x (QReq OboNone o) = Some (step_i sm f x o)) as E.
   { destruct (op_sid o) as [sid|] eqn:S; [apply (ostep_plain sm [] f x o sid S eq_refl)|].
     unfold ostep_c04. rewrite S. reflexivity. }
   unfold ostep_f_c04. cbn [fst snd]. rewrite E. unfold step_f. cbn [fst snd]. fold (step_i sm f x o).
@@ -561,7 +663,7 @@ Definition ex_obo_s0 : store :=
   ad_sub_create (ad_sub_create (ad_sub_create (mkStore true 0 0 0%N 47%N 0%N [] [] [] [(1%N, 47%N); (2%N, 47%N); (3%N, 47%N)])
      1%N 255%N 255%N) 2%N 47%N 47%N) 3%N 47%N 47%N.
 Definition ex_obo_hist : list (fault * oreq_c04) :=
-  map (fun q => (NoFault, q))
+  map (fun q => (NoFault, QReq (fst q) (snd q)))
     [(OboUser 1, OSub 1 [] false); (OboNone, OSub 2 [] false); (OboNone, OSub 3 [] false);
      (OboNone, OPub 1 7 false); (OboNone, OPub 2 8 false); (OboUser 3, OPub 1 9 false); (OboNone, OPub 1 10 false);
      (OboNone, OPub 3 11 false);
@@ -590,3 +692,22 @@ Proof.
   - cbn in Hq. repeat (destruct Hq as [<-|Hq]; [cbn; try discriminate; exact Logic.I|]). destruct Hq.
   - destruct (snd q); cbn; auto.
 Qed.
+
+(* the same history continued: the root session leaves and comes back with {sub get="data del"}
+   on behalf of user 2 - the subscription reply, then user 2's view of the history and of the
+   deletion log; a second {sub get} while attached: 304 and nothing else; from a non-root session
+   naming a user: 403 *)
+Definition ex_obo_hist2 : list (fault * oreq_c04) :=
+  ex_obo_hist ++ map (fun q => (NoFault, q))
+   [QReq (OboUser 1) (OLeave 1 false); QSubGet (OboUser 2) 1 [] false (Some (0, 0, 0)) (Some (0, 0, 0));
+    QSubGet (OboUser 3) 1 [] false (Some (0, 0, 0)) None;
+    QSubGet (OboUser 3) 2 [] false (Some (0, 0, 0)) None].
+
+Lemma obo_sub_get_example :
+  exists r, orun_c04 ex_obo_sm [1%N] (mkState ex_obo_s0 None 0) ex_obo_hist2 = Some r /\
+  skipn 21 (snd r) =
+    [[(1%N, Ctrl 200 [])];
+     [(1%N, Ctrl 200 []); (1%N, Data 3 3 9); (1%N, Data 2 2 8); (1%N, Ctrl 208 [(P_what, 1); (P_count, 2)]);
+      (1%N, MetaDel 3 [(1, 0); (4, 6)])];
+     [(1%N, Ctrl 304 [])]; [(2%N, Ctrl 403 [])]].
+Proof. eexists. split; [vm_compute; reflexivity|]. vm_compute. reflexivity. Qed.
